@@ -3,7 +3,7 @@ FRAGMENT = {
  'C06': {'bin': 'w_dvb',
  'world': 'c06',
  'level': 'exploration',
- 'quick': {'runs': 24000, 'budget_s': 28, 'workers': 16},
+ 'quick': {'runs': 60000, 'budget_s': 28, 'workers': 16},
  'thorough': {'runs': 2000000, 'budget_s': 600, 'workers': 16, 'det_sample': 200},
  'level_text': 'seeded exploration of frames (subsets of lines 7-23/320-336 x Teletext/VPS/WSS/caption/raw x payloads, undefined Teletext lines, deliberately invalid '
                'frames) x configurations (data_identifier, PES size range, PES/TS, PID, service mask) x PTS values x callback/coroutine output with planned buffer '
